@@ -1046,6 +1046,8 @@ pub enum Reader {
     Copy,
     /// same with rename
     Rename,
+    /// the stale-cache instance copies `a` to a new key, then reads the target
+    StaleCopy,
 }
 
 impl Reader {
@@ -1055,6 +1057,7 @@ impl Reader {
             Reader::Stale => "stale-cache-reader",
             Reader::Copy => "via-copy",
             Reader::Rename => "via-rename",
+            Reader::StaleCopy => "stale-cache-reader-via-copy",
         }
     }
 }
@@ -1098,31 +1101,65 @@ pub fn stale_reads(len: u64) -> Vec<Read> {
 /// becomes `content` without the replaced generation object (instance B's
 /// overwrite reclaimed it, then the tamper); then A reads.
 pub fn check_content_stale(sc: &Scenario, content: &Content, strict: bool) -> SiteOut {
+    let len = sc.original["a"].plain.len() as u64;
+    let mut out = SiteOut::default();
+    for rd in stale_reads(len) {
+        let store = stale_instance(sc, content, strict);
+        one_read(sc, store.as_ref(), &rd, &mut out);
+    }
+    out
+}
+
+/// An instance whose cache holds the previous commit of `a` (read while it
+/// was current) over a backend that now holds `content` without the replaced
+/// generation object.
+fn stale_instance(sc: &Scenario, content: &Content, strict: bool) -> Arc<dyn ObjectStore> {
     use vcore::util::now;
     let old_gen = Path::from(sc.old_gen_path.as_str());
     let mut pre = Content::new();
     pre.insert("meta/a".into(), sc.old_meta.clone());
     pre.insert(sc.old_gen_path.clone(), sc.base[&sc.old_gen_path].clone());
-    let len = sc.original["a"].plain.len() as u64;
-    let mut out = SiteOut::default();
-    for rd in stale_reads(len) {
-        let inner = restore(&pre);
-        let store = if strict { enc_strict(inner.clone()) } else { enc(inner.clone()) };
-        // warm the cache with the older commit (must read back: it is untampered)
-        let warm = vcore::util::block_on(async { store.get(&Path::from("a")).await?.bytes().await });
-        match warm {
-            Ok(b) if b == sc.old_plain => {}
-            other => vcore::report::machinery(&format!("stale reader: warming read of the older commit failed: {other:?}")),
-        }
-        now(inner.delete(&old_gen)).expect("delete InMemory");
-        for (p, v) in content {
-            if *p != sc.old_gen_path {
-                now(inner.put(&Path::from(p.as_str()), v.clone().into())).expect("put InMemory");
-            }
-        }
-        one_read(sc, store.as_ref(), &rd, &mut out);
+    let inner = restore(&pre);
+    let store = if strict { enc_strict(inner.clone()) } else { enc(inner.clone()) };
+    // warm the cache with the older commit (must read back: it is untampered)
+    let warm = vcore::util::block_on(async { store.get(&Path::from("a")).await?.bytes().await });
+    match warm {
+        Ok(b) if b == sc.old_plain => {}
+        other => vcore::report::machinery(&format!("stale reader: warming read of the older commit failed: {other:?}")),
     }
-    out
+    now(inner.delete(&old_gen)).expect("delete InMemory");
+    for (p, v) in content {
+        if *p != sc.old_gen_path {
+            now(inner.put(&Path::from(p.as_str()), v.clone().into())).expect("put InMemory");
+        }
+    }
+    store
+}
+
+/// The stale-cache instance COPIES `a` to a new key (the copy is the call
+/// that re-resolves the commit point half-way), then the battery runs on the
+/// target through the same instance.
+pub fn check_content_stale_copy(sc: &Scenario, content: &Content, strict: bool) -> (SiteOut, u64, u64) {
+    let store = stale_instance(sc, content, strict);
+    let o = &sc.original["a"];
+    let target = copy_target("a");
+    let (from, to) = (Path::from("a"), Path::from(target.as_str()));
+    let r = std::panic::catch_unwind(std::panic::AssertUnwindSafe(|| vcore::util::block_on(store.copy(&from, &to))));
+    let mut out = SiteOut::default();
+    if !matches!(r, Ok(Ok(()))) {
+        return (out, 0, 1);
+    }
+    let mut alt = sc.clone();
+    alt.original.insert(target.clone(), Original { plain: o.plain.clone(), e_tag: None, lm_ms: 0, meta_known: false });
+    // what this instance lists for `a` itself comes from its cache: not judged here
+    alt.original.get_mut("a").unwrap().meta_known = false;
+    let mut reads = Vec::new();
+    reads_for(&target, o.plain.len() as u64, true, &mut reads);
+    list_reads(&mut reads);
+    for rd in &reads {
+        one_read(&alt, store.as_ref(), rd, &mut out);
+    }
+    (out, 1, 0)
 }
 
 pub fn copy_target(key: &str) -> String {
